@@ -122,10 +122,13 @@ def main_cli():
             else:
                 output_format = "raw"
 
-            emitted_file = {
-                "format": output_format,
-                "path": output_file
-            }
+            if emitted_file is None:
+                # The listing goes beside the first output file: a 'make_xxx'
+                # file, if any, was written before this one
+                emitted_file = {
+                    "format": output_format,
+                    "path": output_file
+                }
 
             if output_file in ("-", "-." + output_ext):
                 sys.stdout.buffer.write(file_formats[output_format](base, code))
